@@ -133,3 +133,15 @@ def big_pair(rng):
         a = 2 ** (k // 2 if k % 2 == 0 else (k + 1) // 2) - rng.randint(0, 3)
         b = 2 ** (k // 2 if k % 2 == 0 else (k + 1) // 2) - rng.randint(0, 3)
     return max(1, a), max(1, b)
+
+def scaled_denominator(rng):
+    """(n, d, j): a denominator d that lands in the top half of a 64- or 128-bit word only AFTER it has been multiplied by 10^j, with a
+    numerator that leaves a remainder of at least one half: round(n / d, -j) scales the denominator to exactly there (seed C10-d)."""
+    k = rng.choice([64, 128, 128])
+    j = rng.randint(1, 12)
+    top = 2 ** (k - 1) + rng.randrange(2 ** (k - 1))
+    d = max(2, top // 10 ** j)
+    q = rng.choice([0, 1, 7, rng.randrange(10 ** 6)])
+    r = (d * 10 ** j) // 2 + rng.randrange(max(1, d * 10 ** j // 2))
+    n = q * d * 10 ** j + r
+    return (-n if rng.random() < 0.5 else n), d, j
